@@ -70,6 +70,12 @@ class EngineBase:
             return True
         if z3.is_false(c):
             return False
+        if getattr(self, 'building', 0):
+            # constructing the world: every leaf is havocked afterwards and the object shape does not depend on the
+            # branch taken (checked by the shape scan), so one feasible branch suffices
+            d = True if self.feasible(cond) else False
+            self.st.assume(cond if d else z3.Not(cond))
+            return d
         d = self.oracle.decide(lambda: self.feasible(cond), lambda: self.feasible(z3.Not(cond)))
         self.st.assume(cond if d else z3.Not(cond))
         return d
@@ -155,6 +161,8 @@ class EngineBase:
             return TupleV([self.fresh_of_type(t, f"{base}.{i}") for i, t in enumerate(ty[6:].split(','))])
         if ty == 'none':
             return None
+        if ty == 'proc':
+            return ProcV(None, z3.Bool(fresh_name(base + '.triggered')))
         raise OutOfSubset(f"unknown type {ty}")
 
     def fresh_enum(self, cls, base):
@@ -172,10 +180,14 @@ class EngineBase:
         if v.startswith('list:'):
             d = DictObj(keys, nk, 'list', vcnt=z3.Const(fresh_name(base + '.vcnt'), z3.ArraySort(I, IntArr)),
                         vn=z3.Const(fresh_name(base + '.vn'), IntArr), velem=v[5:], label=base)
+            self.dict_of_lists_facts(d)
         elif v == 'num':
             d = DictObj(keys, nk, 'num', vals=z3.Const(fresh_name(base + '.vals'), z3.ArraySort(I, R)), label=base)
         elif v == 'bool':
             d = DictObj(keys, nk, 'bool', vals=z3.Const(fresh_name(base + '.vals'), BoolArr), label=base)
+            self.st.assume(z3.Function('cardtrue', BoolArr, BoolArr, I)(d.keys, d.vals) >= 0)
+        elif v.startswith('pair:'):
+            d = DictObj(keys, nk, 'pair', vals=z3.Const(fresh_name(base + '.vals'), IntArr), velem=v, label=base)
         else:
             cls = v[4:] if v.startswith('ref:') else (v if v in self.spec.entities else None)
             d = DictObj(keys, nk, 'ref' if cls else v, vals=z3.Const(fresh_name(base + '.vals'), IntArr), vcls=cls, label=base)
